@@ -6,6 +6,8 @@ import (
 	"math/rand"
 	"os"
 
+	"github.com/cbehopkins/gkvlite"
+
 	"verifharness/memfile"
 )
 
@@ -59,7 +61,7 @@ func cmdCrash(args []string) {
 }
 
 var crashProfile = Profile{"set": 30, "del": 8, "flush": 12, "evict": 3, "reopen": 3, "setcoll": 4, "removecoll": 2,
-	"collwrite": 2, "revert": 2, "get": 2}
+	"collwrite": 2, "revert": 2, "get": 2, "delroot": 6, "writerevert": 1}
 
 func tornLengths(n int, all int, rng *rand.Rand) []int {
 	if n <= 1 {
@@ -99,6 +101,17 @@ func crashHistory(w *World, steps, allTorn, contEvery int, st *stats) bool {
 	if !w.Flush(r.main, nil) {
 		return false
 	}
+	// tail phase: flushes that write little or nothing but a root record
+	// (delete the key at the root of a tree, flush at once; flush twice)
+	r.cfg.profile = Profile{"delroot": 6, "flush": 2, "set": 1}
+	for i := 0; i < 8; i++ {
+		if !r.step() {
+			return false
+		}
+	}
+	if !w.Flush(r.main, nil) {
+		return false
+	}
 	// the history may have moved on to a fresh file (reopen of a never-flushed
 	// file); crash points are taken on the file the store lives on now
 	file = r.main.File
@@ -127,6 +140,9 @@ func crashHistory(w *World, steps, allTorn, contEvery int, st *stats) bool {
 			}
 			w.DropFile(g)
 		}
+	}
+	if !rootsOnlyScenario(w, allTorn, st) {
+		return false
 	}
 	// adversarial junk after the last complete root record of the full file
 	for j := 0; j < 12; j++ {
@@ -225,5 +241,77 @@ func recoverAndLook(w *World, g *memfile.File, cont bool, st *stats) bool {
 	if hf != nil && hf != g {
 		w.DropFile(hf)
 	}
+	return true
+}
+
+// rootsOnlyScenario: flushes that write nothing but a root record.  Two
+// collections are filled in ascending key order with increasing priorities
+// (the root is the largest key and has only a left child); deleting the key
+// at the root makes the persisted child the new root, so the next Flush
+// consists of the root record alone.  Every crash point of those flushes is
+// enumerated (all torn lengths: the records are short).
+func rootsOnlyScenario(w *World, allTorn int, st *stats) bool {
+	file := w.NewFile()
+	h := w.Open(file, nil)
+	if h == nil {
+		return false
+	}
+	names := []string{w.U.Names[0], w.U.Names[1]}
+	prio := int32(1)
+	for _, n := range names {
+		if !w.SetColl(h, n) {
+			return false
+		}
+		for i := 0; i < 4 && i < len(w.U.Keys); i++ {
+			val, _ := w.U.NewValue(w.rng, false, nil)
+			prio++
+			if !w.SetKV(h, n, w.U.Keys[i], val, prio, false, nil) {
+				return false
+			}
+		}
+	}
+	if !w.Flush(h, nil) {
+		return false
+	}
+	from := file.LogLen()
+	for round := 0; round < 3; round++ {
+		for _, n := range names {
+			pr := gkvlite.VerifPeek(h.St.GetCollection(n))
+			if pr != nil && pr.Tree != nil && pr.Tree.Loaded && pr.Tree.Item != nil {
+				if !w.Del(h, n, append([]byte{}, pr.Tree.Item.Key...), nil) {
+					return false
+				}
+			}
+			if round == 1 {
+				break // sometimes only one collection changes between two flushes
+			}
+		}
+		if !w.Flush(h, nil) {
+			return false
+		}
+		w.Decode(file)
+	}
+	if !w.Close(h) {
+		return false
+	}
+	nlog := file.LogLen()
+	for upto := from; upto <= nlog; upto++ {
+		torns := []int{0}
+		if upto < nlog {
+			if op := file.LogEntry(upto); op.Kind == memfile.Write {
+				torns = tornLengths(len(op.Data), 256, w.rng)
+			}
+		}
+		for _, torn := range torns {
+			g := w.Crash(file, upto, torn)
+			st.Extra["crash_images"]++
+			st.Extra["roots_only_images"]++
+			if !recoverAndLook(w, g, false, st) {
+				return false
+			}
+			w.DropFile(g)
+		}
+	}
+	w.DropFile(file)
 	return true
 }
